@@ -103,6 +103,10 @@ def masks : String :=
   let c := (List.finRange 64).map fun s => toString (castleKeep s).toNat
   " ".intercalate (w ++ b ++ c)
 
+/-- `MatId::materialId[]` as the theorems of `PosImpl/MatId.lean` assume it (`Props.C02.matWeights_eq`) -/
+def matWeights : List Nat :=
+  [0, 0, 5903, 9, 767, 91, 1, 0, 5903 * 65536, 9 * 65536, 767 * 65536, 91 * 65536, 1 * 65536]
+
 def step (st : State) (args : List String) : State × String :=
   match args with
   | "init" :: rest =>
@@ -110,6 +114,7 @@ def step (st : State) (args : List String) : State × String :=
     | some T => ({ st with tables := some T }, "ok")
     | none => (st, "tables-bad")
   | ["masks"] => (st, masks)
+  | ["matw"] => (st, " ".intercalate (matWeights.map toString))
   | "run" :: rest =>
     match st.tables with
     | none => (st, "no-tables")
